@@ -1,10 +1,10 @@
 #!/bin/bash
-# runs every check against every round-2 candidate in /tmp/mut2/Cnn/_out/{A,B}; prints which checks fire
+# runs every check against every round-2 candidate in ${MUTBASE:-/tmp/mut3}/Cnn/_out/{A,B}; prints which checks fire
 set -u
 tmp=$(mktemp -d /tmp/matrix2.XXXXXX)
 one() {
   d=$1; tmp=$2
-  id=$(echo $d | sed 's#/tmp/mut2/\(C[0-9]*\)/_out/\([AB]\)#\1-\2#')
+  id=$(echo $d | sed 's#.*/\(C[0-9]*\)/_out/\([AB]\)#\1-\2#')
   wt=$(mktemp -d /tmp/wt_m2.XXXXXX)
   rsync -a --exclude .git --exclude _out /repo/ $wt/
   if ! patch -p1 -s -f -d $wt -i $d/patch.diff >/dev/null 2>&1; then echo "$id PATCH-FAIL" > $tmp/$id.txt; rm -rf $wt; return; fi
@@ -23,7 +23,7 @@ PY
   rm -rf $wt $sc
 }
 export -f one
-ls -d /tmp/mut2/C*/_out/[AB] | xargs -P 8 -I{} bash -c "one {} $tmp"
+ls -d ${MUTBASE:-/tmp/mut3}/C*/_out/[AB] | xargs -P 8 -I{} bash -c "one {} $tmp"
 cat $tmp/*.txt | sort
 mkdir -p /tmp/matrix2_logs; cp $tmp/*.log /tmp/matrix2_logs/ 2>/dev/null
 rm -rf $tmp
